@@ -32,6 +32,7 @@ def errOf : String → Option CErr
   | "ResPQ nonce mismatch" => some .resNonce
   | "ErrKeyFingerprintNotFound" => some .noKey
   | "server provided bad pq" => some .badPQ
+  | "server provided bad pq: not composite" => some .badPQ
   | "decompose pq" => some .factor
   | "ServerDHParamsOk nonce mismatch" => some .dhNonce
   | "ServerDHParamsOk server nonce mismatch" => some .dhServerNonce
@@ -122,6 +123,10 @@ def row1 {Ct} (P : XP Ct) (cfg : CCfg) (t : CTape) (n sn : Bytes) (pq : Nat) (fp
   | ("cond", "pq.Cmp(pqMax) > 0", _, e) =>
     match env1 cfg t n sn pq s "pq", errOf e with
     | some (.nat v), some err => if v > pqMax then .exit err else .next s
+    | _, _ => .stuck "cond"
+  | ("cond", "pq.Cmp(big.NewInt(1)) <= 0 || pq.ProbablyPrime(0)", _, e) =>
+    match env1 cfg t n sn pq s "pq", errOf e with
+    | some (.nat v), some err => if v ≤ 1 ∨ P.isPrime v = true then .exit err else .next s
     | _, _ => .stuck "cond"
   | ("callerr", "crypto.DecomposePQ", [a, _], e) =>
     match env1 cfg t n sn pq s a, errOf e with
